@@ -82,13 +82,22 @@ func genGetOps(r *lib.RNG, chainLen, n int, faults bool) []getOp {
 	for i := range ops {
 		k := lib.Pick(r, pool)
 		ops[i] = getOp{Base: lib.Pick(r, bases), Extra: lib.Pick(r, []string{"l", "l", "l", "r", ""}),
-			Start: k.s, Limit: k.l, Fault: r.Intn(3)}
+			Start: k.s, Limit: k.l, Fault: r.Intn(cachesim.NFaults)}
 		if ops[i].Extra == "l" {
 			ops[i].Addrs = lib.Pick(r, addrSets)
 		}
 		if faults {
-			ops[i].FailB = r.Chance(1, 7)
+			ops[i].FailB = r.Chance(1, 6)
 			ops[i].FailX = r.Chance(1, 7)
+			if ops[i].FailB && ops[i].Base != "" && r.Chance(1, 2) {
+				// a reply that decodes but is rejected by validate
+				ops[i].Fault = cachesim.FaultBadLink + r.Intn(2)
+			}
+			// a failed base fetch is retried on the same range (same cache)
+			if i > 0 && ops[i-1].FailB && ops[i-1].Base != "" && r.Chance(3, 4) {
+				ops[i].Base, ops[i].Start, ops[i].Limit = ops[i-1].Base, ops[i-1].Start, ops[i-1].Limit
+				ops[i].FailB = r.Chance(1, 5)
+			}
 		}
 	}
 	return ops
@@ -234,6 +243,11 @@ func genGetSeq(seed uint64) lib.Case {
 		if !cachesim.EqualDump(got, truth) {
 			fails = append(fails, fmt.Sprintf("op %d: cached view %v differs from the chain %v", i, got, truth))
 		}
+		for _, b := range dump {
+			if b.Hash >= cachesim.BadHashDelta || b.Num >= op.Start+op.Limit || b.Num < op.Start {
+				fails = append(fails, fmt.Sprintf("op %d: block (num %d, hash %d) of a reply that validate rejected was served", i, b.Num, b.Hash))
+			}
+		}
 		if p := cachesim.Problems(dump); len(p) > 0 {
 			fails = append(fails, fmt.Sprintf("op %d: %s", i, strings.Join(p, ", ")))
 		}
@@ -255,6 +269,12 @@ func genGetSeq(seed uint64) lib.Case {
 		Nontrivial: mixed,
 		OracleOK:   len(fails) == 0,
 		Size:       len(ops),
+	}
+	for _, op := range ops {
+		if op.FailB && op.Fault >= cachesim.FaultBadLink && op.Base != "" {
+			stat("get-seq:rejected-reply")
+			break
+		}
 	}
 	if len(fails) > 0 {
 		c.OracleMsg = strings.Join(fails, "; ")
